@@ -129,6 +129,9 @@ PLACEMENTS = [  # (t0, t1, f0, f1)
     (1, 3, 1000, 3000),
     (2, 4, 2000, MAXF),
     (3, 4, 250, 500),
+    # placement 0 moved inwards by 2^-22 (2.4e-7) on every edge: equal to placement 0 at six decimals, but touching / nested
+    # relations with the other placements flip; still dyadic, so the Fraction model is exact
+    (2.0 ** -22, 2 - 2.0 ** -22, 2.0 ** -22, 2000 - 2.0 ** -22),
 ]
 
 
